@@ -270,6 +270,11 @@ def writer_rule(ck, facts):
 
 def run(ck, facts, tier):
     facts.require_crates(["sophia_api", "sophia_rio", "sophia_turtle", "sophia_inmem", "sophia_xml", "sophia_jsonld"])
+    import core
+    for name, expect in (("pos_drop_ok", True), ("pos_drop_unused", True), ("pos_drop_is_ok", True),
+                         ("pos_drop_on_early_return", True), ("neg_propagate", False), ("neg_match_err", False)):
+        hits = [how for _, _, how in errflow.dropped_results(core.fixture_fn(name))]
+        ck.control("R15.1", name, bool(hits), expect, note="; ".join(hits)[:120])
     fns = sorted((f for f in facts.fns.values() if in_scope(f)), key=lambda f: f.id)
     ck.floor("R15.1", "functions in the stream/serializer scope", len(fns), 400)
     results = 0
